@@ -20,6 +20,7 @@ EXPLANATION = (
     "F3 every constraint of the CNF - on every path of the copy loop, whatever its class - is copied through the rename map; F4 the trivial-CNF path of _compile builds the smooth circuit directly: one atom "
     "per CNF atom with the CNF's weight, an OR of (i, -i) per atom, their conjunction, every name with its node and label, every constraint copied; "
     "F5 both paths are reached from _compile on the same cnf (the non-trivial path writes cnf.to_dimacs() and loads with that same cnf)."
+    " Added after seed round 6: F6 the compiler wrappers default to smooth=True and pass the smoothing flag on every path that reaches the compiler when smooth holds."
 )
 TECHNIQUE = "static analysis: decision table of the .nnf reader over line kinds (symbolic substitution), carry-over (who-copies-what) rules, sibling agreement of the two compile paths"
 LEVEL_TEXT = EXPLANATION
